@@ -1205,6 +1205,10 @@ func (in *Interp) get(fr *frame, v ssa.Value) Value {
 			if it, ok := c.T.Underlying().(*types.Interface); ok && types.Identical(c.T, types.Universe.Lookup("error").Type()) && it != nil && c.Kids == nil {
 				c.V = Iface{T: errType, V: &ErrObj{Site: "sentinel " + c.Name, ID: -1 - len(in.Globals)}}
 			}
+			if c.Name == "os.Args" {
+				// the program name only: options and arguments reach the code under test through the flag stubs
+				c.V = in.mkStringSlice([]string{"verif-program"})
+			}
 			in.Globals[x] = c
 		}
 		return Ptr{c}
